@@ -25,7 +25,8 @@ TRUSTED_BASE = [
     "other variables are iteration-local computes flatMap(body) (pyvc/loops.py); list lemmas in lean/Lifting.lean",
     "A2 builtin models in pyvc/builtins_model.py + pyvc/listops.py (len, slicing, append/pop/insert/index, +, sorted "
     "= sorted permutation and identity on sorted input, min/max first extremal element, any/all, zip, enumerate, "
-    "range, deepcopy, round half-even, int truncation, float, abs, math.floor, math.isclose)",
+    "range, deepcopy, round half-even, int truncation, float, abs, math.floor, math.isclose, slicing with clamped "
+    "bounds, list(set(xs)) = the distinct values of xs in unspecified order)",
     "A3 number<->text: Repr/float and %d/int are inverse (CPython guarantee)",
     "A4 str.strip idempotent; string order embeds into the reals",
     "A7 REAL mode: float arithmetic is treated as exact real arithmetic unless an obligation is tagged RND/FP64",
